@@ -1,5 +1,5 @@
 SPEC = {
-    "lean_modules": ["AM.Props.C06"],
+    "lean_modules": ["AM.Props.C06", "AM.Props.C06Sched"],
     "theorems": [
         "AM.Route.group_labels_spec", "AM.Route.same_group_iff", "AM.Route.group_key_pure", "AM.Route.route_key_spec",
         "AM.Route.child_key_spec", "AM.Route.ginv_ingestRoute", "AM.Route.ingestRoute_lands",
@@ -7,9 +7,18 @@ SPEC = {
         "AM.GroupMap.inv_init", "AM.GroupMap.inv_step", "AM.GroupMap.inv_run", "AM.GroupMap.reachable_inv",
         "AM.GroupMap.cas_replaces_only_destroyed", "AM.GroupMap.maintenance_deletes_only_destroyed",
         "AM.GroupMap.no_orphan_live_group", "AM.GroupMap.insert_lands", "AM.GroupMap.loss_only_by_giveup_or_limit",
+        # schedule replay (engine groupsched): the blocks between yield points are runs of the micro-step model
+        "AM.GroupMap.run_append", "AM.GroupMap.macroStep_is_run", "AM.GroupMap.replay_stays_reachable", "AM.GroupMap.replay_inv",
+        "AM.GroupMap.vStep_default",
+        # the mistakes the replay is there to catch, decided on the model (unchanged code next to each variant)
+        "AM.GroupMap.maintVsRecreate_ok", "AM.GroupMap.delete_by_key_orphans_live_group",
+        "AM.GroupMap.casRace_ok", "AM.GroupMap.store_for_cas_orphans_live_group",
+        "AM.GroupMap.losRace_ok", "AM.GroupMap.store_for_loadOrStore_orphans_live_group",
+        "AM.GroupMap.flushVsInsert_ok", "AM.GroupMap.insert_into_destroyed_is_lost",
     ],
     "engines": [
         {"name": "group", "pkg": "./group", "search_cases": 8000, "timeout_quick": 600},
+        {"name": "groupsched", "pkg": "./groupsched", "search_cases": 6000, "timeout_quick": 240},
     ],
     "rule": "random routing trees (<= 7 nodes, depth <= 3; group_by lists / [] / '...' / inherited; continue) through the real "
             "config.Load -> dispatch.NewRoute, a real dispatch.Dispatcher (8 ingestion workers) fed through a real mem.Alerts under "
